@@ -29,10 +29,10 @@ type c10Case struct {
 func init() {
 	eps := entryPoints()
 	order := []string{"TRACE", "DEBUG", "INFO", "NOTICE", "WARN", "ERROR", "PANIC", "FATAL", "TOP"}
-	definePart("C10", "c10/hooks-product", "qt", "15 entry points x 4 serving loggers x 3 ranges x 8 hook subsets x 4 contexts incl. nil (complete product)",
+	definePart("C10", "c10/hooks-product", "qt", "15 entry points x 6 serving loggers (two of them fanning out to every appender type) x 3 ranges x 8 hook subsets x 4 contexts incl. nil (complete product)",
 		func(tier string, yield func(c10Case)) {
 			for _, ep := range eps {
-				for _, lg := range []string{"builtin", "sync", "async", "sync-filtered"} {
+				for _, lg := range []string{"builtin", "sync", "async", "sync-filtered", "sync+every-appender", "async+every-appender"} {
 					for _, r := range []string{"at", "above", "below"} {
 						if lg == "builtin" && r != "at" {
 							continue
@@ -69,9 +69,26 @@ func init() {
 			enabled := c.Range == "at"
 			if c.Logger != "builtin" {
 				conf := map[string]string{"appender.r0.type": "Rec", "logger.root.appenderRef.ref": "r0", "logger.root.level": rng}
+				if strings.HasSuffix(c.Logger, "+every-appender") {
+					// the recorder next to one appender of every built-in type: whatever an appender does with
+					// an event (or on its own account), the hooks still run once per event, with the caller's context
+					d := c15Dir()
+					delete(conf, "logger.root.appenderRef.ref")
+					for i, a := range []string{"r0", "ac", "af", "ar", "ad"} {
+						conf[fmt.Sprintf("logger.root.appenderRef[%d].ref", i)] = a
+					}
+					conf["appender.ac.type"] = "Console"
+					conf["appender.af.type"], conf["appender.af.fileDir"], conf["appender.af.fileName"] = "File", d, "c10.log"
+					conf["appender.ar.type"], conf["appender.ar.fileDir"], conf["appender.ar.fileName"] = "RollingFile", d, "c10roll.log"
+					conf["appender.ar.rotation"], conf["appender.ar.maxAge"] = "h", "24"
+					conf["appender.ad.type"] = "Discard"
+				}
 				switch c.Logger {
-				case "sync":
+				case "sync", "sync+every-appender":
 					conf["logger.root.type"] = "Logger"
+				case "async+every-appender":
+					conf["logger.root.type"] = "AsyncLogger"
+					conf["logger.root.bufferSize"] = "100"
 				case "async":
 					conf["logger.root.type"] = "AsyncLogger"
 					conf["logger.root.bufferSize"] = "100"
